@@ -1,0 +1,69 @@
+//go:build verif
+
+// Contracts for the expand engine and its transports (comment-only; build tag verif).
+
+package expand
+
+//@ func EngineDependencies.Config
+//@   trusted
+//@   pure
+//@   ensures result != nil
+//@ func EngineDependencies.Tracer
+//@   trusted
+//@   pure
+//@   ensures result != nil
+//@ func EngineDependencies.RelationTupleManager
+//@   trusted
+//@   pure
+//@   ensures result != nil
+//@ func handlerDependencies.Writer
+//@   trusted
+//@   pure
+//@   ensures result != nil
+//@ func handlerDependencies.ReadOnlyMapper
+//@   trusted
+//@   pure
+//@   ensures result != nil && result.ReadOnly
+//@ func handlerDependencies.ExpandEngine
+//@   trusted
+//@   pure
+//@   ensures result != nil && result.d != nil
+
+//@ spec wfx(e *Engine) bool = e != nil && e.d != nil
+//@ spec effx(r int, g int) int = (r <= 0 || g < r) ? g : r
+
+//@ func (*Engine).BuildTree
+//@   props C09 C13 C17
+//@   requires wfx(e) && ctx != nil && wfsubject(subject)
+//@   modifies db, faulted
+//@   ensures[C17] read-only: db == old(db)
+
+// The clamp is applied at every level; the recursive call passes a depth >= 1 that is
+// strictly smaller than the effective depth, so the callee's clamp is the identity and
+// the tree never grows beyond the effective depth. Measure: the effective depth cannot be
+// read off the parameter when it is <= 0 (it is then the configured limit), hence the
+// measure maps those to a constant above every configured limit.
+//@ func (*Engine).buildTreeRecursive
+//@   props C02 C07 C09 C13 C15 C17
+//@   requires wfx(e) && ctx != nil && wfsubject(subject)
+//@   modifies db, faulted
+//@   decreases[C09,C15] restDepth <= 0 ? 4611686018427387904 : restDepth
+//@   callsite (*Engine).buildTreeRecursive requires[C02,C09] clamp-and-budget: restDepth == effx(old(restDepth), globalMaxDepth) && restDepth - 1 >= 1 && restDepth - 1 < restDepth
+//@   ensures[C17] read-only: db == old(db)
+//@   ensures[C07] all-pages-read: result1 == nil && result0 != nil && istype(subject, *relationtuple.SubjectSet) && result0.Type != ketoapi.TreeNodeLeaf ==> nextPage == ""
+//@   ensures[C09] visited-or-empty-is-nil: result1 != nil ==> result0 == nil
+//@   loop 1 invariant (isnil(subTree.Children) || fresh(subTree.Children)) && (ok || nextPage == "")
+//@   loop 1 invariant subTree != nil && fresh(subTree) && subSet != nil && db == old(db) && restDepth == effx(old(restDepth), globalMaxDepth) && restDepth >= 1 && ctx != nil
+//@   loop 2 invariant children != nil && len(children) == len(rels) && fresh(children) && db == old(db) && subTree != nil && ctx != nil
+
+//@ func (*handler).getExpand
+//@   props C09 C13 C17
+//@   requires h != nil && h.d != nil && r != nil && r.URL != nil && w != nil
+//@   modifies db, faulted, respKind, respCode
+//@   ensures[C17] read-only: db == old(db)
+
+//@ func (*handler).Expand
+//@   props C09 C13 C17
+//@   requires h != nil && h.d != nil && ctx != nil && req != nil && wfwiresubject(req.Subject)
+//@   modifies db, faulted
+//@   ensures[C17] read-only: db == old(db)
